@@ -354,6 +354,13 @@ fn gen_mutation(r: &mut Rng) -> String {
             let was_num = matches!(j.get_mut(path), J::Num(_));
             let (v, code) = match r.below(6) {
                 0 if !was_num => (J::Num("7".into()), Some(3)),
+                0 if r.chance(1, 2) => {
+                    // a long non-ASCII string where a number is expected: serde echoes it back in its message
+                    let ch = *r.pick(&['\u{20ac}', '\u{e9}', '\u{1f600}', '\u{4e2d}']);
+                    let n = 25 + r.below(40) as usize;
+                    let pre = "x".repeat(r.below(3) as usize);
+                    (J::Str(format!("{pre}{}", ch.to_string().repeat(n))), Some(3))
+                }
                 0 => (J::Str("5".into()), Some(3)),
                 1 => (J::Bool(true), Some(3)),
                 2 => (J::Null, if path == "appointment" { Some(1) } else { Some(3) }),
